@@ -288,6 +288,88 @@ def check_unit_with_quantity(rep: Report, prog: Program, resolver: Resolver, rid
     return n
 
 
+def check_swallowed_conversion_errors(rep: Report, prog: Program, resolver: Resolver, rid: str) -> int:
+    """R03.11: ConversionNotFound is a ValueError.  A handler for ValueError / Exception / everything around a conversion
+    (`in_unit`, `convert`, or a function that calls one) that ends in an ordinary value turns "these are incommensurable" into a
+    result.  Handlers that name ConversionNotFound itself are the comparison protocol (R07.3, R03.3) and are not this rule's."""
+    broad = {"ValueError", "Exception", "BaseException", "ArithmeticError", "<bare>"}
+
+    def converts(fn_node: ast.AST, fi_: Any, depth: int = 0) -> bool:
+        for c in ast.walk(fn_node):
+            if isinstance(c, ast.Call):
+                nm = c.func.attr if isinstance(c.func, ast.Attribute) else getattr(c.func, "id", "")
+                if nm in ("in_unit", "convert"):
+                    return True
+        if depth < 1 and fi_ is not None:
+            for cs in resolver.callsites(fi_.qual):
+                if any(cs.node is x for x in ast.walk(fn_node)):
+                    for t in cs.targets:
+                        tf = prog.functions[t]
+                        if tf.module not in ("hypothesis", "pytest", "_parser") and converts(tf.node, None, depth + 1):
+                            return True
+        return False
+    n = 0
+    for q, fi in sorted(prog.functions.items()):
+        if fi.module in ("hypothesis", "pytest", "_parser", "cli"):
+            continue
+        for t in Resolver._own_nodes(fi.node):
+            if not isinstance(t, ast.Try):
+                continue
+            body = ast.Module(body=t.body, type_ignores=[])
+            if not converts(body, fi):
+                continue
+            for h in t.handlers:
+                names = ["<bare>"] if h.type is None else [ast.unparse(x).split(".")[-1] for x in (h.type.elts if isinstance(h.type, ast.Tuple) else [h.type])]
+                hit = [x for x in names if x in broad]
+                if not hit:
+                    continue
+                n += 1
+                reraises = any(isinstance(x, ast.Raise) for st in h.body for x in ast.walk(st))
+                rep.check(rid, f"{q}:except {hit[0]}", reraises,
+                          f"{q} catches {hit[0]} around a conversion and carries on: ConversionNotFound is a ValueError, so converting a quantity of "
+                          "another dimension no longer raises - the operation yields a value", fi.where(h))
+    return n
+
+
+def check_float_only_calls(rep: Report, prog: Program, rid: str) -> int:
+    """R03.12: the functions of `math` (and `cmath`, `statistics`) take a Decimal through __float__ and hand back a float.
+    A Quantity method that passes (something derived from) its magnitude to one of them without a Decimal branch of its own
+    returns a float magnitude for a Decimal operand."""
+    n = 0
+    ci = next((c for c in prog.classes.values() if c.name == "Quantity" and c.module == ""), None)
+    if ci is None:
+        return 0
+    for attr, q in sorted(ci.methods.items()):
+        fi = prog.func(q)
+        mags = {"magnitude"}
+        for st in ast.walk(fi.node):
+            if isinstance(st, ast.Assign) and len(st.targets) == 1 and isinstance(st.targets[0], ast.Name) \
+                    and any(isinstance(x, ast.Attribute) and x.attr == "magnitude" for x in ast.walk(st.value)):
+                mags.add(st.targets[0].id)
+        guarded = any(isinstance(c, ast.Call) and isinstance(c.func, ast.Name) and c.func.id == "isinstance" and len(c.args) == 2
+                      and "Decimal" in ast.unparse(c.args[1]) for c in ast.walk(fi.node))
+        mi = prog.modules[fi.module]
+        for c in ast.walk(fi.node):
+            lib = isinstance(c, ast.Call) and isinstance(c.func, ast.Attribute) and isinstance(c.func.value, ast.Name) \
+                and c.func.value.id in ("math", "cmath", "statistics") and c.func.attr not in ("isfinite", "isnan", "isinf", "isclose")
+            # ... or a name imported from math, or from the package's compat shims (`from .compat import cbrt`), which stand in for math
+            if not lib and isinstance(c, ast.Call) and isinstance(c.func, ast.Name) and c.func.id in mi.imports:
+                src_mod = str(mi.imports[c.func.id][0])
+                lib = src_mod.endswith("math") or src_mod.endswith("compat")
+                if lib and src_mod.endswith("compat") and "compat" in prog.modules:
+                    lib = "Decimal" not in prog.modules["compat"].source
+            if not lib:
+                continue
+            uses = any((isinstance(x, ast.Attribute) and x.attr == "magnitude") or (isinstance(x, ast.Name) and x.id in mags) for a in c.args for x in ast.walk(a))
+            if not uses:
+                continue
+            n += 1
+            rep.check(rid, f"{q}:{ast.unparse(c.func)}", guarded,
+                      f"{q} passes its magnitude to {ast.unparse(c.func)} with no Decimal branch: a Decimal magnitude goes through float() and the result "
+                      "is a float (the magnitude of a result must be a Decimal whenever an operand's is)", fi.where(c))
+    return n
+
+
 NUMBER_HOOKS = ("__float__", "__int__", "__index__", "__complex__", "__bool__")
 
 
